@@ -219,6 +219,9 @@ def accessor_steps(sw, root, quick, rnd):
                 sw.ev += 1
                 key = f'put_line_comment@{a.__class__.__name__}:{sw.name}:{path}:{t!r}'
                 sw.pre_edit(r)
+                if 'C08' in sw.props or 'C01' in sw.props:
+                    from contracts import b_query
+                    b_query.prepass(r)   # read-only queries before the write are part of "repeated arbitrarily"
                 try:
                     n.put_line_comment(t)
                 except Exception:
@@ -237,6 +240,30 @@ def accessor_steps(sw, root, quick, rnd):
                     sw.fail('C08', key + ':c01', f'after put_line_comment({t!r}): {v}')
                     sw.fail('C01', key + ':c01', f'after put_line_comment({t!r}): {v}')
                 sw.post_edit(r, key, f'put_line_comment({t!r})', v)
+                # ... and then the enclosing block is cut and put back: must restore the tree (C08 round trip after a write)
+                par = n.parent
+                if not v and par is not None and par.parent is not None and isinstance(par.a, ast.stmt) \
+                        and par.pfield.idx is not None and ('C08' in sw.props or 'C01' in sw.props):
+                    gp, fld, idx = par.parent, par.pfield.name, par.pfield.idx
+                    from contracts.b_lib import sdump
+                    s0 = sdump(r.a)   # multi-line string statements compared up to their documented re-indentation
+                    sw.ev += 1
+                    try:
+                        piece = gp.get_slice(idx, idx + 1, fld, cut=True)
+                        gp.put_slice(piece, idx, idx, fld)
+                    except Exception as e:
+                        sw.fail('C08', key + ':block_roundtrip', f'after put_line_comment({t!r}): cutting the enclosing block '
+                                f'and putting it back raised {e!r}', src_after=r.src[:300])
+                        continue
+                    v2 = c01_violation(r)
+                    if v2:
+                        sw.fail('C08', key + ':block_roundtrip', f'after put_line_comment({t!r}) + cut/put back of the '
+                                f'enclosing block: {v2}', src_after=r.src[:300])
+                        sw.fail('C01', key + ':block_roundtrip', f'after put_line_comment({t!r}) + cut/put back of the '
+                                f'enclosing block: {v2}', src_after=r.src[:300])
+                    elif sdump(r.a) != s0:
+                        sw.fail('C08', key + ':block_roundtrip', f'after put_line_comment({t!r}): cut + put back of the '
+                                'enclosing block does not restore the structure', src_after=r.src[:300])
 
 
 def badopt_steps(sw, paths, quick, rnd):
